@@ -20,7 +20,7 @@ impl Zerv {
 
         // 2. Bump + Reset step (atomic operation)
         if let Some(increment) = bump_value {
-            self.vars.post = Some(self.vars.post.unwrap_or(0) + increment as u64);
+            self.vars.post = Some(super::checked_bump(self.vars.post.unwrap_or(0), increment)?);
             self.reset_lower_precedence_components(&Precedence::Post)?;
         }
 
@@ -39,7 +39,7 @@ impl Zerv {
 
         // 2. Bump + Reset step (atomic operation)
         if let Some(increment) = bump_value {
-            self.vars.dev = Some(self.vars.dev.unwrap_or(0) + increment as u64);
+            self.vars.dev = Some(super::checked_bump(self.vars.dev.unwrap_or(0), increment)?);
             self.reset_lower_precedence_components(&Precedence::Dev)?;
         }
 
@@ -96,7 +96,8 @@ impl Zerv {
         // 2. Bump + Reset step (atomic operation)
         if let Some(increment) = bump_value {
             if let Some(ref mut pre_release) = self.vars.pre_release {
-                pre_release.number = Some(pre_release.number.unwrap_or(0) + increment as u64);
+                pre_release.number =
+                    Some(super::checked_bump(pre_release.number.unwrap_or(0), increment)?);
                 self.reset_lower_precedence_components(&Precedence::PreReleaseNum)?;
             } else {
                 // Create alpha label with the increment when no pre-release exists
@@ -123,7 +124,7 @@ impl Zerv {
 
         // 2. Bump + Reset step (atomic operation)
         if let Some(increment) = bump_value {
-            self.vars.epoch = Some(self.vars.epoch.unwrap_or(0) + increment as u64);
+            self.vars.epoch = Some(super::checked_bump(self.vars.epoch.unwrap_or(0), increment)?);
             self.reset_lower_precedence_components(&Precedence::Epoch)?;
         }
 
